@@ -1,6 +1,6 @@
 (* Property C13 - encodings round-trip.  Only theorem statements, closed by [exact]. *)
 From Virel Require Import Lib.Config Lib.U64 Model.Des Model.Codec Model.CodecBlock Proofs.Des Proofs.DesVal Proofs.Codec Proofs.CodecBlock Proofs.CodecWf Proofs.CodecBlockWf Gen.Params
-  Spec.TxAbs Proofs.CodecBridge.
+  Spec.TxAbs Proofs.CodecBridge Proofs.CodecFull.
 From Virel Require Model.Ledger Proofs.Conservation Proofs.Refine2 Proofs.Mempool.
 Open Scope N_scope.
 
@@ -225,6 +225,89 @@ Theorem C13_handshake_reencode : forall bs h, bytes bs ->
   result_of (run dec_handshake bs) = ROk h -> result_of (run dec_handshake (enc_handshake h)) = ROk h.
 Proof. exact handshake_reencode. Qed.
 Print Assumptions C13_handshake_reencode.
+
+(* ---- the wire block (Block.DeserializeFull / SerializeFullBlock, the P2P block packet).
+   Every accepted byte string decodes to a well-formed wire block; the decoded block carries an empty id list (the ids are
+   hashes recomputed by the receiver, outside the model) *)
+Theorem C13_full_block_dec_wf : forall cfg, cfg_ok_block cfg = true -> forall bs b txs, bytes bs -> blen bs < two64 ->
+  result_of (run (dec_full_block cfg) bs) = ROk (b, txs) -> wf_full_block cfg b txs = true /\ bl_txs b = [].
+Proof. exact full_block_dec_wf. Qed.
+Print Assumptions C13_full_block_dec_wf.
+
+(* ... hence re-encoding what was decoded decodes to exactly that (block, transactions) pair.  No admission clause:
+   SerializeFullBlock, unlike Block.Serialize, does not refuse a zero difficulty (witness below) *)
+Theorem C13_full_block_reencode : forall cfg, cfg_ok_block cfg = true -> forall bs b txs, bytes bs -> blen bs < two64 ->
+  result_of (run (dec_full_block cfg) bs) = ROk (b, txs) ->
+  result_of (run (dec_full_block cfg) (enc_full_block b txs)) = ROk (b, txs).
+Proof. exact full_block_reencode. Qed.
+Print Assumptions C13_full_block_reencode.
+
+(* ... also after the receiver has filled in the id list (any list: the wire form does not carry it) *)
+Theorem C13_full_block_reencode_ids : forall cfg, cfg_ok_block cfg = true -> forall bs b txs ids, bytes bs -> blen bs < two64 ->
+  result_of (run (dec_full_block cfg) bs) = ROk (b, txs) ->
+  result_of (run (dec_full_block cfg) (enc_full_block (mkblock (bl_header b) (bl_diff b) (bl_cumdiff b) ids) txs)) = ROk (b, txs).
+Proof. exact full_block_reencode_ids. Qed.
+Print Assumptions C13_full_block_reencode_ids.
+
+(* ... and each of its transactions re-encodes under the block's version-byte regime, to fewer than 2^64 bytes *)
+Theorem C13_full_block_txs_reencode : forall cfg, cfg_ok_block cfg = true -> forall bs b txs, bytes bs -> blen bs < two64 ->
+  result_of (run (dec_full_block cfg) bs) = ROk (b, txs) ->
+  Forall (fun t => result_of (run (dec_tx cfg (hf_v2 cfg <=? hd_height (bl_header b))) (enc_tx t)) = ROk t
+                   /\ blen (enc_tx t) < two64) txs.
+Proof. exact full_block_txs_reencode. Qed.
+Print Assumptions C13_full_block_txs_reencode.
+
+(* the length fact behind the transaction length prefixes: a decoded transaction re-encodes to at most 5 bytes more than
+   the slice it came from (for every list of numbers, both modes; addresses longer than 10 bytes) ... *)
+Theorem C13_tx_reencode_len : forall cfg, cfg_ok_codec cfg = true -> forall has_version sl t,
+  result_of (run (dec_tx cfg has_version) sl) = ROk t -> blen (enc_tx t) <= blen sl + 5.
+Proof. exact tx_reencode_len. Qed.
+Print Assumptions C13_tx_reencode_len.
+
+(* ... because AppendUvarint is the shortest encoding Uvarint accepts ... *)
+Theorem C13_uvarint_minimal : forall buf v n, uvarint buf = (v, n) -> (0 < n)%Z -> blen (put_uvarint v) <= Z.to_N n.
+Proof. exact uvarint_min. Qed.
+Print Assumptions C13_uvarint_minimal.
+
+(* ... and it can be longer: Des.ReadUvarint takes Uvarint's "buffer too small" (n = 0) for the value 0 with nothing
+   consumed, so a dangling continuation byte 0x80 after the signature of a version-4 transaction is read as five zero
+   fields: 98 bytes are accepted, the transaction re-encodes to 102 bytes (main-net constants; reproduced on the Go code) *)
+Theorem C13_tx_truncated_varint_witness :
+  result_of (run (dec_tx cfg_mainnet true) trunc_tx_bytes) = ROk trunc_tx /\
+  blen trunc_tx_bytes = 98 /\ blen (enc_tx trunc_tx) = 102 /\
+  result_of (run (dec_tx cfg_mainnet true) (enc_tx trunc_tx)) = ROk trunc_tx /\
+  result_of (run (x <- read_uvarint ;; ret_err x) [128]) = ROk 0.
+Proof. exact tx_truncated_varint_witness. Qed.
+Print Assumptions C13_tx_truncated_varint_witness.
+
+(* the same inside a wire block: accepted bytes 4 shorter than the re-encoding of their value *)
+Theorem C13_full_block_truncated_varint_witness :
+  result_of (run (dec_full_block cfg_mainnet) (trunc_block_bytes [1])) = ROk (mkblock trunc_header 1 1 [], [trunc_tx]) /\
+  blen (enc_full_block (mkblock trunc_header 1 1 []) [trunc_tx]) = blen (trunc_block_bytes [1]) + 4.
+Proof. exact full_block_truncated_varint_witness. Qed.
+Print Assumptions C13_full_block_truncated_varint_witness.
+
+(* a zero difficulty passes DeserializeFull and SerializeFullBlock; only the stored form answers nil for it *)
+Theorem C13_full_block_zero_diff_witness :
+  result_of (run (dec_full_block cfg_mainnet) (trunc_block_bytes [])) = ROk (mkblock trunc_header 0 1 [], [trunc_tx]) /\
+  result_of (run (dec_full_block cfg_mainnet) (enc_full_block (mkblock trunc_header 0 1 []) [trunc_tx]))
+    = ROk (mkblock trunc_header 0 1 [], [trunc_tx]) /\
+  enc_block (mkblock trunc_header 0 1 []) = [].
+Proof. exact full_block_zero_diff_witness. Qed.
+Print Assumptions C13_full_block_zero_diff_witness.
+
+(* the bare readers *)
+Theorem C13_byte_slice_reencode : forall bs b, blen bs < two64 ->
+  result_of (run (x <- read_byte_slice ;; ret_err x) bs) = ROk b ->
+  result_of (run (x <- read_byte_slice ;; ret_err x) (add_byte_slice b)) = ROk b.
+Proof. exact byte_slice_reencode. Qed.
+Print Assumptions C13_byte_slice_reencode.
+
+Theorem C13_u128_reencode : forall bs v, bytes bs ->
+  result_of (run (x <- read_u128 ;; ret_err x) bs) = ROk v ->
+  result_of (run (x <- read_u128 ;; ret_err x) (add_byte_slice (u128_trimmed v))) = ROk v.
+Proof. exact u128_reencode. Qed.
+Print Assumptions C13_u128_reencode.
 
 (* ---- from the codec to the ledger model: whatever the wire decoders return is typed.
    [abs_tx] (Spec/TxAbs.v) maps a decoded transaction to the symbolic transaction of the ledger model under ANY numbering
